@@ -73,6 +73,8 @@ ALL_ATOMS = tuple(n for n, _ in ATOM_MAKERS)
 G_QUICK = Grammar(top_atoms=ALL_ATOMS, elem_atoms=("int", "str", "None"), max_size=2, depth=1)
 G_SMALL = Grammar(top_atoms=("int", "str", "None", "A", "B"), elem_atoms=("int", "str", "None"),
                   containers=("list", "tuple", "dict_str", "dict_int", "set"), max_size=2, depth=1, str_keys=("a", "b"))
+G_TINY = Grammar(top_atoms=("int", "None", "A", "B"), elem_atoms=("int", "str"), containers=("list", "tuple", "dict_str", "set", "dict_int"),
+                 max_size=1, depth=1, str_keys=("a",))
 G_MEDIUM = Grammar(top_atoms=ALL_ATOMS, elem_atoms=("int", "str", "None", "A", "B", "cls_A"), max_size=2, depth=1)
 G_DEEP = Grammar(top_atoms=ALL_ATOMS, elem_atoms=("int", "str", "None", "A", "B"), max_size=2, depth=2)
 G_FULL1 = Grammar(top_atoms=ALL_ATOMS, elem_atoms=ALL_ATOMS[:17], max_size=3, depth=1)
